@@ -39,7 +39,21 @@ def fixed_trees():
               ["hr", ["hr", S("hh"), ["unit"]], ["unit"]],
               ["net", "v4", "c0a80114", 0], ["net", "v6", "20010db8000000000000000000000001", 0],
               ["net", "ip4", "7f000001", 0], ["net", "ip6", "00000000000000000000ffffc0a80114", 0],
-              ["net", "sa4", "0a000001", 8080], ["net", "sa6", "fe800000000000000000000000000001", 65535]]
+              ["net", "sa4", "0a000001", 8080], ["net", "sa6", "fe800000000000000000000000000001", 65535],
+              # serde_json::Value (free-form parameters): every kind of Number, nesting, member order
+              ["json", None], ["json", ["jb", True]], ["json", ["js", hx("a\"\n")]],
+              ["json", ["ju", "0"]], ["json", ["ju", "10"]], ["json", ["ju", str(2**64 - 1)]],
+              ["json", ["ji", "-1"]], ["json", ["ji", str(-2**63)]],
+              ["json", ["jf", str(0x3FF8000000000000)]], ["json", ["jf", str(0x8000000000000000)]],
+              ["json", ["jf", str(0x4341C37937E08000)]], ["json", ["jf", str(0x3EB0C6F7A0B5ED8D)]],
+              ["json", ["ja", []]], ["json", ["jo", []]],
+              ["json", ["ja", [["ju", "1"], None, ["ji", "-2"], ["jf", str(0x3FB999999999999A)]]]],
+              ["json", ["jo", [[hx("b"), ["ju", "10"]], [hx("a"), ["ja", [["ju", "1"]]]], [hx("b"), ["ji", "-7"]],
+                               [hx("é"), ["jo", [[hx("n"), ["jf", str(0x400921FB54442D18)]]]]]]]],
+              # the struct names serde_json's own serializer treats as magic tokens when its
+              # arbitrary_precision / raw_value features are on: plain structs for both otherwise
+              ["st", hx("$serde_json::private::Number"), 1, [[hx("$serde_json::private::Number"), S("10")]]],
+              ["st", hx("$serde_json::private::RawValue"), 1, [[hx("$serde_json::private::RawValue"), S("[1, 2]")]]]]
     out = list(leaves)
     for l in leaves:
         out.append(["map", 1, [[l, ["unit"]]]])
@@ -96,7 +110,7 @@ def gen_cases(ck):
     for i, v in enumerate(fixed_trees()):
         add(v, "fixed", send="all" if i % 23 == 0 else "auto", cont=[None, True, False][i % 3])
     # random trees of serializer calls, acceptable keys only
-    for i in range(5000 if quick else 60000):
+    for i in range(4500 if quick else 60000):
         v = g.tree(rng.choice([1, 2, 2, 3, 3, 4]), 0.0, rng.choice([2, 3, 4, 6]))
         if sg.size(v) > 60:
             continue
@@ -181,6 +195,7 @@ def job_cases(ck, first_id):
     add({"job": "pairs"})
     add({"job": "ints16"})
     add({"job": "collect"})
+    add({"job": "json", "seed": seed + 60, "n": 400 if quick else 40000})
     add({"job": "net", "seed": seed + 50, "n": 3000 if quick else 300000})
     for i in range(4 if quick else 16):
         add({"job": "intswide", "seed": seed + i, "n": 20000 if quick else 1000000})
